@@ -950,6 +950,46 @@ fn step(w: &mut World, op: &Op, st: &mut Stats) -> Result<(), (&'static str, Str
                 if gu != up || gl != lowt {
                     return Err(("predicate_wrong", format!("is_upper_triangular = {} (expected {}), is_lower_triangular = {} (expected {})", gu, up, gl, lowt)));
                 }
+                // query -> in-place change -> query on the SAME live object: column 0 is negated in place
+                // (exactly reversible), the predicates are asked again and must follow the data, then the
+                // column is negated back
+                if mo.r >= 2 {
+                    st.inc("predicates.requeried_after_in_place_change");
+                    let mut m2 = mo.clone();
+                    for i in 0..m2.r {
+                        let v = -m2.at(i, 0);
+                        m2.d[i * m2.c] = v;
+                    }
+                    let (mut ex2, mut not2, mut up2, mut low2) = (true, false, true, true);
+                    for i in 0..m2.r {
+                        for j in 0..m2.c {
+                            let (a, b) = (m2.at(i, j), m2.at(j, i));
+                            if a != b {
+                                ex2 = false;
+                                if (a - b).abs() > 1.5 * f64::EPSILON || (a - b).is_nan() {
+                                    not2 = true;
+                                }
+                            }
+                            if j < i && a != 0.0 {
+                                up2 = false;
+                            }
+                            if j > i && a != 0.0 {
+                                low2 = false;
+                            }
+                        }
+                    }
+                    let live = &mut w.ms[*m];
+                    let got = catch(|| {
+                        live.apply_along_col(0, |x| -x);
+                        let r = (live.is_symmetric(), live.is_upper_triangular(), live.is_lower_triangular());
+                        live.apply_along_col(0, |x| -x);
+                        r
+                    })
+                    .map_err(|e| ("valid_rejected", format!("predicates after an in-place column map panicked: {}", e)))?;
+                    if (ex2 && !got.0) || (not2 && got.0) || got.1 != up2 || got.2 != low2 {
+                        return Err(("predicate_wrong", format!("after negating column 0 in place: is_symmetric = {} ({}), is_upper_triangular = {} (expected {}), is_lower_triangular = {} (expected {}): the answers do not follow the data", got.0, if ex2 { "exactly symmetric now" } else if not2 { "clearly not symmetric now" } else { "undecided" }, got.1, up2, got.2, low2)));
+                    }
+                }
             }
             // design: first column all ones
             let d = mo.d.clone();
